@@ -118,3 +118,12 @@ Theorem C10_transparent_nested_caches_one_key : forall id a k,
   answers_equiv (source a) ops (fst (run_hops [] (SCached id a) ops)) (fresh_answers a ops) 0 = 0.
 Proof. exact ColdCacheRoot.cached_root_transparent_same_key. Qed.
 Print Assumptions C10_transparent_nested_caches_one_key.
+
+(* with hypotheses on the INPUT only (`tiny`: sizes and numbers of the tree below 2^28) *)
+From RS Require Proofs.BoundsPos Proofs.BoundsAll.
+Theorem C10_transparent_concat_input_bounds : forall id cs ops,
+  RStreamTree.rshape (SConcat cs) = true -> treeA (SConcat cs) = true -> BoundsPos.tiny (SConcat cs) = true ->
+  answers_equiv (source (SConcat cs)) ops (fst (run_hops [] (SCached id (SConcat cs)) ops))
+                (fresh_answers (SConcat cs) ops) 0 = 0.
+Proof. intros id cs ops. exact (BoundsAll.cached_concat_transparent_all_tiny id cs ops). Qed.
+Print Assumptions C10_transparent_concat_input_bounds.
